@@ -309,7 +309,7 @@ func keyString(k dig.VerifKey, sliceKeyed bool) string {
 	if n == "" {
 		n = "?" + fmt.Sprint(t)
 	}
-	return univ.Key{T: n, Name: k.Name, Group: k.Group}.String()
+	return univ.Key{T: n, Name: univ.ModelName(k.Name), Group: k.Group}.String()
 }
 
 // scopeName maps a *dig.Scope to the catalog's scope id.
@@ -382,7 +382,7 @@ func (r *Runner) snapshot() *Snap {
 				for _, rk := range res.Ks {
 					k := univ.ParseKey(rk)
 					ok := false
-					for _, nid := range s.Providers[dig.VerifKey{Type: univ.Type(k.T), Name: k.Name, Group: k.Group}] {
+					for _, nid := range s.Providers[dig.VerifKey{Type: univ.Type(k.T), Name: univ.RealName(k.Name), Group: k.Group}] {
 						if nid == n.ID {
 							ok = true
 						}
@@ -615,9 +615,17 @@ func guard(f func()) (injected *PanicVal, crash string) {
 func infoStrings(ins []*dig.Input, outs []*dig.Output) ([]string, []string) {
 	var a, b []string
 	for _, i := range ins {
+		if isJunkIn(i) {
+			a = append(a, "<entry of an earlier use>")
+			continue
+		}
 		a = append(a, i.String())
 	}
 	for _, o := range outs {
+		if isJunkOut(o) {
+			b = append(b, "<entry of an earlier use>")
+			continue
+		}
 		b = append(b, o.String())
 	}
 	return a, b
@@ -643,6 +651,11 @@ func (r *Runner) postOp(e *Entry) {
 				e.VizErr = "Visualize(err) error: " + err.Error()
 			}
 			e.DotErr = b2.String()
+			// drawing a failure is a view, not a change: the plain picture is what it was
+			var b3 bytes.Buffer
+			if err := dig.Visualize(r.c, &b3); err == nil && b3.String() != e.Dot {
+				e.VizErr = "the plain picture differs after Visualize(VisualizeError(err)) was called"
+			}
 		}
 		_ = r.c.String()
 		for _, s := range r.scopes {
@@ -697,30 +710,30 @@ func (r *Runner) Do(op, f, s string) (*Entry, error) {
 			if op == "provide" {
 				var pi dig.ProvideInfo
 				pi.ID = -12345
+				pi.Inputs, pi.Outputs = junkInputs, junkOutputs
 				opts := []dig.ProvideOption{dig.FillProvideInfo(&pi)}
 				if l != nil {
 					opts = append(opts, l.opts...)
 				}
 				opts = append(opts, r.extraProvideOpts(f)...)
-				if fn.Exp {
-					opts = append(opts, dig.Export(true))
-				}
+				opts = append(opts, exportOpts(f, fn.Exp)...)
 				if fn.Cb {
 					opts = append(opts, dig.WithProviderCallback(r.callback(f)))
 				}
 				callErr = a.Provide(val, opts...)
-				info.Filled = pi.ID != -12345 || pi.Inputs != nil || pi.Outputs != nil
+				info.Filled = pi.ID != -12345 || !untouched(pi.Inputs, pi.Outputs)
 				info.ID = int(pi.ID)
 				info.Inputs, info.Outputs = infoStrings(pi.Inputs, pi.Outputs)
 			} else {
 				var di dig.DecorateInfo
 				di.ID = -12345
+				di.Inputs, di.Outputs = junkInputs, junkOutputs
 				opts := []dig.DecorateOption{dig.FillDecorateInfo(&di)}
 				if fn.Cb {
 					opts = append(opts, dig.WithDecoratorCallback(r.callback(f)))
 				}
 				callErr = a.Decorate(val, opts...)
-				info.Filled = di.ID != -12345 || di.Inputs != nil || di.Outputs != nil
+				info.Filled = di.ID != -12345 || !untouched(di.Inputs, di.Outputs)
 				info.ID = int(di.ID)
 				info.Inputs, info.Outputs = infoStrings(di.Inputs, di.Outputs)
 			}
@@ -786,6 +799,22 @@ func (r *Runner) Do(op, f, s string) (*Entry, error) {
 }
 
 func (r *Runner) extraProvideOpts(f string) []dig.ProvideOption { return nil }
+
+// exportOpts spells the Export choice of function f in one of three ways: the shortest one
+// (nothing for a private constructor), explicitly (Export(false) / Export(true)), or overriding
+// an earlier, opposite Export in the same call (options apply in order: the last one wins).
+func exportOpts(f string, exported bool) []dig.ProvideOption {
+	switch (len(f) + int(f[len(f)-1])) % 3 {
+	case 0:
+		if exported {
+			return []dig.ProvideOption{dig.Export(true)}
+		}
+		return nil
+	case 1:
+		return []dig.ProvideOption{dig.Export(exported)}
+	}
+	return []dig.ProvideOption{dig.Export(!exported), dig.Export(exported)}
+}
 
 func (r *Runner) buildLib(id string) (interface{}, *layout, error) {
 	f := r.Cat.Fns[id]
